@@ -5,6 +5,7 @@ CONSTANTS
   Thr = 2
   InitBal = 6
   PersistUnderLock = TRUE
+  RefreshReadsUnderLock = TRUE
   Amounts <- MCAmounts
   MaxOps = 4
 INVARIANTS TypeOK PayoutsWithinOwed CashedWithinHeld AckDurable AckChequeDurable NoRepay
